@@ -8,7 +8,7 @@ import implobs
 from gens.programs import Opts, Gen
 from props.c15 import canon_obs
 
-THEOREMS = []
+THEOREMS = ['fully_supported_untouched', 'full_after_removal']
 RULE = ('supported generated functions (incl. nested loops / branches) into which a multiset of 1-4 unsupported '
         'statements over fresh identifiers (calls, arrays, pointers, ternary, compound assignment, n-ary expressions, '
         'switch, goto, initialised / array / pointer declarations, non-counted for loops, division) is inserted at '
@@ -98,16 +98,15 @@ def run(ctx):
             ins.append(stmt)
             src = src[:pos] + ' ' + stmt + ' ' + src[pos:]
         labels = re.findall(r'goto (L\d+);', src)
-        for lb in set(labels):   # give every goto a target so that the file parses as C; the label is supported
-            src = src[:-1] + f' {lb}: ; }}'
+        for lb in sorted(set(labels)):   # every goto needs a target for the file to be C; the (supported) label
+            src = src[:-1] + f' {lb}: ; }}'      # statement is added to BOTH versions
+            base = base[:-1] + f' {lb}: ; }}'
         try:
             astwire.parse(src)
             astwire.parse(base)
         except Exception:
             ctx.count('variant_not_parseable')
             continue
-        if labels:
-            base_cmp = base[:-1] + ''.join(f' {lb}: ; }}' for lb in set(labels))[:-1] + '}' if False else base
         ctx.case((base, tuple(ins)), nontrivial=deep, sample={'base': base, 'with_unsupported': src})
         ctx.count('n_inserted_%d' % len(ins))
         inp = {'src': src, 'base': base, 'inserted': ins}
